@@ -252,10 +252,10 @@ PROPERTIES = {
         "runs": {
             "quick": [H("HarnessC11a", b(N=5, OPS=1, MODE=m, KINDS=14, HREQ=2, LPAT=63), race=True, policy="rr", no_native=True) for m in (0, 1)] +
                      [H("HarnessC11a", b(N=3, OPS=1, MODE=m, KINDS=15, HREQ=-1), race=True, policy="rr", no_native=True) for m in (0, 2)] +
-                     # a base that is not an ascending build: one more symbolic insert anywhere before persisting (splits in the
+                     # a base that is not an ascending build: one more symbolic insert anywhere before persisting (MID=1) (splits in the
                      # middle leave nodes with spare array capacity as left siblings), then both goroutines delete
-                     [H("HarnessC11a", b(N=4, OPS=1, MODE=0, KINDS=4, HREQ=1, LPAT=10, PRE=1), race=True, policy="rr", no_native=True, sample_every=50)],
-            "thorough": [H("HarnessC11a", b(N=5, OPS=1, MODE=m, KINDS=12, HREQ=1, LPAT=28, PRE=1), race=True, policy="rr", no_native=True, sample_every=1000) for m in (0, 1)] + [H("HarnessC11a", b(N=5, OPS=1, MODE=m, KINDS=14, HREQ=2, LPAT=p), race=True, policy=pol, no_native=True, sample_every=1000) for m in (0, 1) for p in (63, 57, 75) for pol in ("rr", "first", "last")] +
+                     [H("HarnessC11a", b(N=4, OPS=1, MODE=0, KINDS=4, HREQ=1, LPAT=10, MID=1), race=True, policy="rr", no_native=True, sample_every=50)],
+            "thorough": [H("HarnessC11a", b(N=5, OPS=1, MODE=m, KINDS=12, HREQ=1, LPAT=28, MID=1), race=True, policy="rr", no_native=True, sample_every=1000) for m in (0, 1)] + [H("HarnessC11a", b(N=5, OPS=1, MODE=m, KINDS=14, HREQ=2, LPAT=p), race=True, policy=pol, no_native=True, sample_every=1000) for m in (0, 1) for p in (63, 57, 75) for pol in ("rr", "first", "last")] +
                         [H("HarnessC11a", b(N=3, OPS=1, MODE=m, KINDS=15, HREQ=-1), race=True, policy=pol, no_native=True, sample_every=1000) for m in (0, 1, 2) for pol in ("rr", "last")] +
                         [H("HarnessC11a", b(N=2, OPS=2, MODE=0, KINDS=10, HREQ=-1), race=True, policy="rr", no_native=True, sample_every=1000)] +
                         [H("HarnessC11a", b(N=3, OPS=1, MODE=0, KINDS=14, HREQ=-1, LPAT=9), race=True, sched=True, preempt=1, no_native=True, sample_every=5000)],
